@@ -9,6 +9,10 @@ wt=$(mktemp -d /tmp/verif-mut.XXXXXX)
 git -C /repo worktree add --detach "$wt" HEAD >/dev/null 2>&1 || { echo "worktree failed"; exit 2; }
 trap 'git -C /repo worktree remove --force "$wt" >/dev/null 2>&1; rm -rf "$wt"' EXIT
 if ! git -C "$wt" apply "$patch"; then echo "patch does not apply"; exit 2; fi
+# builds of scratch worktrees go to a throw-away build cache (each tree would
+# otherwise leave hundreds of megabytes in the shared one)
+export GOCACHE="$wt.gocache"
+trap 'git -C /repo worktree remove --force "$wt" >/dev/null 2>&1; rm -rf "$wt" "$wt.gocache"' EXIT
 cd "$(dirname "$0")/.."
 cp -r evidence "$wt.evidence"
 for c in "$@"; do
